@@ -11,13 +11,15 @@ from fractions import Fraction
 
 VERIF = os.path.dirname(os.path.abspath(__file__))
 LEAN = os.path.join(VERIF, "lean")
-HARNESS = os.path.join(VERIF, "harness")
+# Environment overrides are used only to pre-screen seeded changes in a scratch worktree without touching /repo
+# (tools/mutscreen.py); the registered commands never set them.
+HARNESS = os.environ.get("VERIF_HARNESS", os.path.join(VERIF, "harness"))
 CACHE = os.path.join(VERIF, ".cache")
-WORK = os.path.join(CACHE, "work")
-TARGET = os.path.join(CACHE, "target")
+WORK = os.environ.get("VERIF_WORK", os.path.join(CACHE, "work"))
+TARGET = os.environ.get("VERIF_TARGET", os.path.join(CACHE, "target"))
 HARNESS_BIN = os.path.join(TARGET, "debug", "moyo_harness")
 MODEL_BIN = os.path.join(LEAN, ".lake", "build", "bin", "moyo_model")
-REPO = "/repo"
+REPO = os.environ.get("VERIF_REPO", "/repo")
 NCPU = os.cpu_count() or 4
 ALLOWED_AXIOMS = {"propext", "Classical.choice", "Quot.sound"}
 
@@ -69,7 +71,8 @@ def build_harness():
 def translate():
     """Regenerate Moyo/Generated/*.lean from /repo (only rewrites files whose content changed)."""
     tr = os.path.join(VERIF, "tools", "translate.py")
-    if not os.path.exists(tr):
+    if not os.path.exists(tr) or os.environ.get("VERIF_REPO"):
+        # pre-screening of a scratch worktree must not rewrite the shared Generated/ files
         return True, ""
     with Lock("lake"):
         r = sh([sys.executable, tr], cwd=VERIF)
